@@ -497,7 +497,7 @@ def finish(ctx):
         if key in seen:
             continue
         seen.add(key)
-        if printed >= 25:
+        if printed >= int(os.environ.get('VERIF_MAX_REPLAYS', '25')):
             continue
         os.makedirs(rdir, exist_ok=True)
         path = os.path.join(rdir, '%s_%s.json' % (v['clause'], key))
